@@ -32,7 +32,7 @@ func init() {
 			"documented panics are not exercised: Must*View, ItemAt out of range, integer division by zero; typed-nil function values, nil FilterClause/Expression interfaces and negative Const counts are outside the dynamic unions",
 			"callbacks supplied by the harness never panic themselves",
 		},
-		Stages:  stages(4000, 120000, 0, 0),
+		Stages:  stages(4000, 500000, 0, 0),
 		RunCase: runC10,
 	})
 }
